@@ -88,18 +88,30 @@ pub fn run(case: &str) -> String {
         }
     }
     verif::fail_next_adds(0);
+    // stalled clients (every third run with at least two workers): the first workers-1 clients send half a request head and
+    // complete it only when every other client has finished (or after 6 s, more than the other clients' 5 s timeout): each of
+    // them occupies one worker, and the remaining worker must serve all the other connections (seed C14-g: a pool one
+    // thread smaller than configured)
+    let nstall = if workers >= 2 && nconn >= workers && (salt / 7) % 3 == 0 && !(workers == 1 && nconn > 60) { workers - 1 } else { 0 };
+    let others_done = Arc::new(std::sync::atomic::AtomicUsize::new(0));
     // concurrent lock-step clients
     let mut hs = Vec::new();
     for ci in 0..nconn {
+        let others_done = others_done.clone();
+        let staller = ci < nstall;
         let mut rng = Rng::new(salt.wrapping_add(ci as u64 * 7919), "epollclient");
         let nreq = rng.range(1, maxreq.max(1));
-        let ending = rng.below(4); // 0 client close, 1 connection: close on last request, 2 /err, 3 /close route
+        // 0 client close, 1 connection: close on last request, 2 handler Err (of several io::ErrorKinds), 3 /close route,
+        // 4 the client resets the connection (RST) while its last request is still in the handler
+        let ending = rng.below(5);
+        let errpath = *rng.pick(&["/err", "/errk/wb", "/errk/to", "/errk/intr", "/err"]);
         // an eager client uses slow handlers (the response is sent first, then the handler lingers): its next request,
         // or its close, reaches the server while the previous request is still in flight on a worker
         let eager = rng.chance(1, 3);
         // burst runs: one worker, many connections, the first one keeps the worker busy for 20 ms while all the others become ready
         let hog = burst && ci == 0;
         let hh = std::thread::spawn(move || -> Result<(), String> {
+          let r = (|| -> Result<(), String> {
             if burst { if ci > 0 { std::thread::sleep(Duration::from_millis(2)); } } else if stagger { std::thread::sleep(Duration::from_micros(rng.below(9000))); }
             let mut s = {
                 let t = Instant::now();
@@ -108,11 +120,20 @@ pub fn run(case: &str) -> String {
             s.set_nodelay(true).ok();
             s.set_read_timeout(Some(Duration::from_secs(5))).unwrap();
             let mut rbuf = Vec::new();
+            if staller {
+                let req = format!("POST /all?c={ci}&r=0 HTTP/1.1\r\nContent-Length: 2\r\n\r\nst");
+                s.write_all(&req.as_bytes()[..17]).map_err(|_| "write")?;
+                let t = Instant::now();
+                while others_done.load(Ordering::SeqCst) < nconn - nstall && t.elapsed() < Duration::from_secs(6) { std::thread::sleep(Duration::from_millis(1)); }
+                s.write_all(&req.as_bytes()[17..]).map_err(|_| "write")?;
+                let want = format!("200,{},k", hex(format!("POST /all c={ci}&r=0 {}", hex(b"st")).as_bytes()));
+                return match read_one(&mut s, &mut rbuf) { Some(r) if r == want => Ok(()), other => Err(format!("conn {ci} (stalled): got {other:?}")) };
+            }
             for j in 0..nreq {
                 if rng.chance(1, 3) { std::thread::sleep(Duration::from_micros(rng.below(300))); }
                 let last = j + 1 == nreq;
-                let slow = hog || (eager && rng.chance(2, 3));
-                let path = if last && ending == 2 { "/err".to_string() } else if last && ending == 3 { "/close".to_string() }
+                let slow = hog || (eager && rng.chance(2, 3)) || (last && ending == 4);
+                let path = if last && ending == 2 { errpath.to_string() } else if last && ending == 3 { "/close".to_string() }
                            else if slow { format!("/slow/{}?c={ci}&r={j}", if hog { 12 } else { rng.range(2, 12) }) } else { format!("/all?c={ci}&r={j}") };
                 let extra = if last && ending == 1 { "Connection: close\r\n" } else { "" };
                 let body = format!("c{ci}r{j}");
@@ -121,8 +142,22 @@ pub fn run(case: &str) -> String {
                 if rng.chance(1, 3) { let cut = rng.range(1, req.len() as u64 - 1) as usize; s.write_all(&req.as_bytes()[..cut]).map_err(|_| "write")?; std::thread::sleep(Duration::from_micros(200)); s.write_all(&req.as_bytes()[cut..]).map_err(|_| "write")?; }
                 else { s.write_all(req.as_bytes()).map_err(|_| "write")?; }
                 if last && ending == 2 {
-                    // handler error: no response, connection closed
-                    if let Some(r) = read_one(&mut s, &mut rbuf) { return Err(format!("conn {ci}: response after handler error: {r}")); }
+                    // handler error (whatever its kind): no response, connection closed by the server
+                    s.set_read_timeout(Some(Duration::from_secs(2))).unwrap();
+                    let mut tmp = [0u8; 64];
+                    return match s.read(&mut tmp) {
+                        Ok(0) => Ok(()),
+                        Ok(n) => Err(format!("conn {ci}: {n} bytes after handler error {errpath}")),
+                        Err(e) if e.kind() == std::io::ErrorKind::WouldBlock || e.kind() == std::io::ErrorKind::TimedOut => Err(format!("conn {ci}: not closed by the server after handler error {errpath}")),
+                        Err(_) => Ok(()) };
+                }
+                if last && ending == 4 {
+                    // reset while the handler runs: SO_LINGER 0 turns the close into an RST
+                    use std::os::unix::io::AsRawFd;
+                    std::thread::sleep(Duration::from_micros(rng.below(1500)));
+                    let lg = libc::linger { l_onoff: 1, l_linger: 0 };
+                    unsafe { libc::setsockopt(s.as_raw_fd(), libc::SOL_SOCKET, libc::SO_LINGER, &lg as *const _ as *const libc::c_void, std::mem::size_of::<libc::linger>() as libc::socklen_t); }
+                    drop(s);
                     return Ok(());
                 }
                 match read_one(&mut s, &mut rbuf) {
@@ -155,6 +190,9 @@ pub fn run(case: &str) -> String {
                 match s.read(&mut tmp) { Ok(0) => {}, Ok(_) => return Err(format!("conn {ci}: data after close")), Err(e) if e.kind() == std::io::ErrorKind::WouldBlock || e.kind() == std::io::ErrorKind::TimedOut => return Err(format!("conn {ci}: not closed by the server")), Err(_) => {} }
             }
             Ok(())
+          })();
+          if !staller { others_done.fetch_add(1, Ordering::SeqCst); }
+          r
         });
         hs.push(hh);
     }
@@ -226,7 +264,7 @@ pub fn gen(ctx: &Ctx) {
     let mut out = Out::new(&ctx.dir, "epoll");
     out.rule = "real serve_epoll executions: 1..4 workers, 1..8 concurrent lock-step clients with 1..5 requests each (requests sometimes split in two segments, random sub-millisecond pauses), a third of the clients eager \
                 (slow handlers that answer first and linger 2-12 ms, so the next request or the close arrives while the previous request is in flight), endings \
-                {client close or half-close, Connection: close, handler Err, response with close}, 0..2 injected EPOLL_CTL_ADD failures; client connects staggered over 9 ms in two thirds of the runs and a setup hook that lingers 0 / 0.3 / 1.5 / 4 ms on the event-loop thread (so that \
+                {client close or half-close, Connection: close, handler Err of kinds Other / WouldBlock / TimedOut / Interrupted, response with close, RST while the last request is in its handler}; every third run with >= 2 workers has workers-1 stalled clients (half a head until all others are done), 0..2 injected EPOLL_CTL_ADD failures; client connects staggered over 9 ms in two thirds of the runs and a setup hook that lingers 0 / 0.3 / 1.5 / 4 ms on the event-loop thread (so that \
                 connections are closed by workers while their events sit in the loop's batch: the loop-side reclamation path); every third run's setup hook hands back a clone of the accepted stream; every fourth run interrupts the loop's epoll_wait with signals; a burst run (one worker held 12 ms while 89 connections become ready); every client checks that its responses arrive in order and belong to its \
                 own requests; the hook event log is replayed through the Coq transition system. Schedules are sampled. non-trivial = at least 2 connections".into();
     let n = if ctx.thorough { 1500 } else { 80 };
